@@ -23,7 +23,7 @@ import math
 import numpy as np
 from . import qmath as qm
 
-FAULT_KINDS = ('dropout', 'glitch', 'scale', 'stuck', 'dup', 'kick')
+FAULT_KINDS = ('dropout', 'glitch', 'scale', 'stuck', 'dup', 'kick', 'nan')
 
 
 def truth(spec):
@@ -96,7 +96,7 @@ class History:
         self.fixed_rows = {}
 
 
-_FBIT = {k: 1 << i for i, k in enumerate(('dropout', 'glitch', 'scale', 'stuck', 'dup', 'kick'))}
+_FBIT = {k: 1 << i for i, k in enumerate(('dropout', 'glitch', 'scale', 'stuck', 'dup', 'kick', 'nan'))}
 
 
 def build(spec, channels):
@@ -168,6 +168,12 @@ def build(spec, channels):
                 elif kind == 'stuck':
                     if s >= 1:
                         arr[s:e] = arr[s - 1]
+                elif kind == 'nan':
+                    comp = f.get('comp')
+                    if comp is None:
+                        arr[s:e] = np.nan
+                    else:
+                        arr[s:e, int(comp)] = np.nan
                 else:
                     raise ValueError(f'unknown fault {kind}')
         mask[s:e] |= _FBIT[kind]
@@ -336,6 +342,10 @@ def gen_faults(rnd, spec, kinds, max_faults=4, sensors=('acc', 'mag', 'gyr')):
         elif kind == 'dup':
             f['len'] = 1
             f.pop('sensor')
+        elif kind == 'nan':
+            f['sensor'] = rnd.choice(['acc', 'mag'])
+            f['comp'] = rnd.choice([None, 0, 1, 2])
+            f['len'] = rnd.choice([1, 1, 3])
         elif kind == 'dropout' and rnd.random() < 0.3:
             f['sensor'] = rnd.sample(list(sensors), rnd.randint(1, len(sensors)))
         faults.append(f)
